@@ -23,6 +23,12 @@ def cases(ctx):
             for tau in (1, 2, 3, 7):
                 for nc in (False, True):
                     yield {"kind": "msm", "xs": list(x), "n": 3, "tau": tau, "noncorr": nc}
+    # the same exhaustive space through get_all_tau_transition_matrices on ONE object per trajectory (both modes)
+    for L in range(0, Lmax + 1):
+        for x in itertools.product(alphabet, repeat=L):
+            yield {"kind": "msm_hist", "xs": list(x), "n": 3,
+                   "calls": [{"f": "all", "taus": [1, 2, 3, 7], "noncorr": False},
+                             {"f": "all", "taus": [1, 2, 3, 7], "noncorr": True}]}
     ctx.exhaustive = True
     ctx.extra_cov["exhaustive_scope"] = f"all trajectories over {{0,1,2,NaN}} up to length {Lmax}, tau in {{1,2,3,7}}, both modes"
     rng = ctx.rng
@@ -46,13 +52,14 @@ def cases(ctx):
     for _ in range(60 if ctx.quick else 1200):
         n = rng.choice([2, 3, 5, 8])
         L = rng.randint(0, 60)
-        xs = [None if rng.random() < 0.1 else rng.randrange(n) for _k in range(L)]
+        pn = rng.choice([0.1, 0.1, 0.5, 0.85])
+        xs = [None if rng.random() < pn else rng.randrange(n) for _k in range(L)]
         calls = []
         for _c in range(rng.randint(2, 6)):
             if rng.random() < 0.6:
                 calls.append({"f": "one", "tau": rng.choice([1, 1, 2, 3, 5]), "noncorr": rng.random() < 0.5})
             else:
-                taus = [rng.choice([1, 2, 2, 3, 4]) + rng.choice([0, 0, 0.5]) for _t in range(rng.randint(1, 4))]
+                taus = [rng.choice([1, 2, 2, 3, 4, 9, 20, 40]) + rng.choice([0, 0, 0.5]) for _t in range(rng.randint(1, 4))]
                 calls.append({"f": "all", "taus": taus, "noncorr": rng.random() < 0.5})
         yield {"kind": "msm_hist", "xs": xs, "n": n, "calls": calls}
     # window generator directly, with other steps
